@@ -8,14 +8,16 @@ from .common import Broken
 
 PREFIX = {"acl": "access-list", "gp": "group-policy", "user": "username", "pool": "ip local pool",
           "tg": "tunnel-group", "cm": "crypto ca certificate map", "tgm": "tunnel-group-map", "webvpn": "webvpn",
-          "cmap": "crypto map", "ts": "crypto ipsec ikev1 transform-set", "dmap": "crypto dynamic-map"}
+          "cmap": "crypto map", "ts": "crypto ipsec ikev1 transform-set", "dmap": "crypto dynamic-map",
+          "prop": "crypto ipsec ikev2 ipsec-proposal"}
 RPREFIX = sorted(((v, k) for k, v in PREFIX.items()), key=lambda x: -len(x[0]))
 # sub-commands that reference another object: text prefix -> kind of the referenced object
 SUBREF = [("vpn-filter value ", "acl"), ("split-tunnel-network-list value ", "acl"), ("address-pools value ", "pool"),
           ("default-group-policy ", "gp"), ("vpn-group-policy ", "gp")]
-ORDER = ["acl", "pool", "ts", "cm", "gp", "tg", "user", "tgm", "webvpn", "dmap", "cmap", "cmi"]
+ORDER = ["acl", "pool", "ts", "prop", "cm", "gp", "tg", "user", "tgm", "webvpn", "dmap", "cmap", "cmi"]
 # settings of a crypto map entry that reference another object: text prefix -> kind
-CMREF = [("match address ", "acl"), ("set ikev1 transform-set ", "ts"), ("ipsec-isakmp dynamic ", "dmap")]
+CMREF = [("match address ", "acl"), ("set ikev1 transform-set ", "ts"), ("ipsec-isakmp dynamic ", "dmap"),
+         ("set ikev2 ipsec-proposal ", "prop")]
 
 
 def key(kind, name):
@@ -45,6 +47,10 @@ def render(cfg, dev):
                     out.append("crypto map %s interface %s" % (ln["r"][0].split("|", 1)[1], o["name"]))
                 continue
             head = PREFIX[kind] + (" " + o["name"] if o["name"] else "")
+            if kind == "prop":       # header line (also of an empty proposal), settings in its sub-mode "."
+                out.append(head)
+                out += [" " + subst(ln["t"], ln["r"]) for ln in sorted(o["lines"], key=lambda l: l["t"])]
+                continue
             if kind == "tgm":        # `tunnel-group-map CERTMAP SEQ TG`: the rule's sequence number is the line's m
                 for ln in sorted(o["lines"], key=lambda l: (l["m"], l["t"])):
                     out.append((head + " " + subst(ln["t"], ln["r"]).replace("#", ln["m"])).strip())
@@ -153,6 +159,14 @@ def parse_script(text):
                 evs.append(dict(e, ev="TopNoLine" if no else "TopLine", k=k, kind=kind, name=name, m=w[0], tx=t, r=r))
             mode = None
             continue
+        if kind == "prop":
+            if no:
+                evs.append(dict(e, ev="Clear", k=k))
+                mode = None
+            else:
+                evs.append(dict(e, ev="SubEnter", k=k, kind=kind, name=name, m="."))
+                mode = (k, ".")
+            continue
         if kind == "webvpn" and rest == "":
             evs.append(dict(e, ev="SubEnter", k=k, kind=kind, name=name, m=""))
             mode = (k, "")
@@ -234,7 +248,7 @@ class Replica:
                 del self.objs[e["k"]]
         elif ev == "SubEnter":
             kind, k = e["kind"], e["k"]
-            creates = kind in ("cm", "webvpn")
+            creates = kind in ("cm", "webvpn", "prop")
             has_top = k in self.objs and any(ln["m"] == "" for ln in self.objs[k]["lines"])
             if self.homonym(kind) or (not creates and not has_top):
                 self.mode = None
